@@ -408,7 +408,8 @@ type replayDoc struct {
 func mkScen(m *mod) *scen {
 	return &scen{m: m,
 		payloads: []string{m.P1, m.P2, m.P2b, "[]", "", "[null]", m.Mixed, "[1]", `["x"]`, "{}", "null", `[{"resource":5}]`},
-		prefixes: append(properPrefixes(m.P2), extensions(m.P1, m.P2, "[]")...)}
+		// blank but non-empty payloads (a file holding only a line break) are not JSON: rejected, rules kept
+		prefixes: append(append([]string{"\n", " ", "\t\r\n"}, properPrefixes(m.P2)...), extensions(m.P1, m.P2, "[]")...)}
 }
 
 func run(c *props.Ctx) {
